@@ -166,6 +166,7 @@ type Explorer struct {
 	obsConc  map[string]string
 
 	panicWhere string
+	noSample   bool
 	// per-path results, merged into the session at path end
 	queries    int64
 	solverTime time.Duration
@@ -623,6 +624,7 @@ func (ex *Explorer) RunPath(prefix []Dec) (outcome string) {
 	ex.queries = 0
 	ex.solverTime = 0
 	ex.panicWhere = ""
+	ex.noSample = false
 	z := ex.solver()
 	z.send("(push 1)")
 	i := &interpreter{
@@ -659,7 +661,7 @@ func (ex *Explorer) RunPath(prefix []Dec) (outcome string) {
 		var smp *Sample
 		if outcome == "ok" {
 			s.mu.Lock()
-			want := len(s.Samples) < s.WantSample
+			want := len(s.Samples) < s.WantSample && !ex.noSample
 			s.mu.Unlock()
 			if want {
 				if ex.check("") == "sat" {
